@@ -169,44 +169,35 @@ CO_ERR CONmtHbConsActivate(CO_HBCONS *hbc, uint16_t time, uint8_t nodeid)
     CO_NMT     *nmt;
     CO_HBCONS  *act;
     CO_HBCONS  *prev;
+    CO_HBCONS  *hprev = 0;
     CO_HBCONS  *found = 0;
+    uint8_t     linked = 0;
 
     nmt = &(hbc->Node->Nmt);
     prev = 0;
     act  = nmt->HbCons;
     while (act != 0) {
+        if (act == hbc) {
+            /* written consumer is active: remember its position in chain */
+            linked = 1;
+            hprev  = prev;
+        }
         if (act->NodeId == nodeid) {
             found = act;
-            break;
         }
         prev = act;
         act  = act->Next;
     }
 
-    if (found != 0) {
-        if (time > 0) {
-            result = CO_ERR_OBJ_INCOMPATIBLE;
-        } else {
-            if (hbc->Tmr >= 0) {
-                err = COTmrDelete(&nmt->Node->Tmr, hbc->Tmr);
-                if (err < 0) {
-                    result = CO_ERR_TMR_DELETE;
-                }
-            }
-            hbc->Time   = time;
-            hbc->NodeId = nodeid;
-            hbc->Tmr    = -1;
-            hbc->Event  = 0;
-            hbc->State  = CO_INVALID;
-            hbc->Node   = nmt->Node;
-            if (prev == 0) {
-                nmt->HbCons = hbc->Next;
-            } else {
-                prev->Next  = hbc->Next;
-            }
-            hbc->Next   = 0;
-        }
+    if ((found != 0) && (time > 0)) {
+        result = CO_ERR_OBJ_INCOMPATIBLE;
     } else {
+        if ((linked != 0) && (hbc->Tmr >= 0)) {
+            err = COTmrDelete(&nmt->Node->Tmr, hbc->Tmr);
+            if (err < 0) {
+                result = CO_ERR_TMR_DELETE;
+            }
+        }
         hbc->Time   = time;
         hbc->NodeId = nodeid;
         hbc->Tmr    = -1;
@@ -215,10 +206,19 @@ CO_ERR CONmtHbConsActivate(CO_HBCONS *hbc, uint16_t time, uint8_t nodeid)
         hbc->Node   = nmt->Node;
 
         if (time > 0) {
-            hbc->Next   = nmt->HbCons;
-            nmt->HbCons = hbc;
+            if (linked == 0) {
+                hbc->Next   = nmt->HbCons;
+                nmt->HbCons = hbc;
+            }
         } else {
-            hbc->Next   = 0;
+            if (linked != 0) {
+                if (hprev == 0) {
+                    nmt->HbCons = hbc->Next;
+                } else {
+                    hprev->Next = hbc->Next;
+                }
+            }
+            hbc->Next = 0;
         }
     }
 
